@@ -122,8 +122,18 @@ let parse_req r = match r with
   | "me" -> QMe | "cptr" -> QCptr | "obj" -> QObj | "meta" -> QMeta | "grp" -> QGrp | "coll" -> QColl
   | "otherptr" -> QOtherPtr | "str" -> QStr | "fmt0" -> QFmt0 | "color" -> QColor | "lattr" -> QLattr | "line" -> QLine
   | _ -> QBad
-let rec parse_xops toks = match toks with
+let rec nat_of_int n = if n <= 0 then O else S (nat_of_int (n - 1))
+let rec parse_xops_i impl toks = let parse_xops = parse_xops_i impl in match toks with
   | [] -> []
+  | "gbindl" :: tg :: r -> XGbindl (tg = "b") :: parse_xops r
+  | "gbindo" :: tg :: r -> XGbindo (tg = "b") :: parse_xops r
+  | "gview" :: tg :: r -> XGview (tg = "b") :: parse_xops r
+  | "gcyc" :: tg :: pos :: r -> XGcyc (tg = "b", z_of_int (int_of_string pos)) :: parse_xops r
+  | "gscyc" :: tg :: pos :: r -> XGscyc (tg = "b", z_of_int (int_of_string pos)) :: parse_xops r
+  | "oset" :: tg :: lg :: r -> XOset (tg = "b", lg = "L") :: parse_xops r
+  | "cset" :: tg :: "tmeta" :: t :: r -> XTmeta (tg = "b", parse_text t) :: parse_xops r
+  | "tot" :: tg :: r -> XTot (tg = "b") :: parse_xops r
+  | "pinfo" :: tg :: r -> XPinfo (tg = "b", impl = "x") :: parse_xops r
   | "set" :: tg :: n :: s :: r -> XBase (OpSet (tg = "b", parse_name n, parse_src s)) :: parse_xops r
   | "get" :: tg :: n :: r -> XBase (OpGet (tg = "b", (match parse_name n with Some b -> b | None -> []))) :: parse_xops r
   | "sp" :: tg :: fl :: n :: s :: r -> XBase (OpSp (tg = "b", z_of_int (int_of_string fl), parse_name n, parse_src s)) :: parse_xops r
@@ -139,6 +149,52 @@ let rec parse_xops toks = match toks with
   | "gbind" :: tg :: r -> XGbind (tg = "b") :: parse_xops r
   | "gtr" :: tg :: r -> XGtr (tg = "b") :: parse_xops r
   | t :: _ -> failwith ("bad op " ^ t)
+let parse_xops toks = parse_xops_i "x" toks
+
+(* ---- layout files: entry tokens  p:<name>:<T text>  i:<key>  e  r:<raw> ---- *)
+let parse_fprop t =
+  match String.split_on_char ':' t with
+  | [_; n; v] ->
+    let tx, o = cut_tilde (String.sub v 1 (String.length v - 1)) in
+    { fp_name = unhex n; fp_text = (match parse_text tx with Some b -> b | None -> []); fp_orc = parse_torc o }
+  | _ -> failwith ("entry " ^ t)
+let key_of t = unhex (String.sub t 2 (String.length t - 2))
+(* entries of a section up to its closing token: (entries, rest) *)
+let rec leaf_props toks = match toks with
+  | "e" :: r -> [], r
+  | t :: r when t.[0] = 'p' -> let ps, r' = leaf_props r in parse_fprop t :: ps, r'
+  | t :: _ -> failwith ("layout file: nested section in an item: " ^ t)
+  | [] -> failwith "layout file: unclosed section"
+let rec sect_ents toks = match toks with
+  | "e" :: r -> [], r
+  | t :: r when t.[0] = 'p' -> let es, r' = sect_ents r in GEProp (parse_fprop t) :: es, r'
+  | t :: r when t.[0] = 'i' ->
+    let ps, r1 = leaf_props r in
+    let es, r2 = sect_ents r1 in
+    GEItem { fl_key = key_of t; fl_props = ps } :: es, r2
+  | t :: _ -> failwith ("layout file: " ^ t)
+  | [] -> failwith "layout file: unclosed section"
+let rec top_ents toks = match toks with
+  | [] -> []
+  | t :: r when t.[0] = 'p' -> TEProp (parse_fprop t) :: top_ents r
+  | t :: r when t.[0] = 'r' -> TERaw :: top_ents r
+  | t :: r when t.[0] = 'i' -> let es, r' = sect_ents r in TESect { fs_key = key_of t; fs_ents = es } :: top_ents r'
+  | t :: _ -> failwith ("layout file: " ^ t)
+let rec take n l = if n <= 0 then [], l else match l with x :: r -> let a, b = take (n - 1) r in x :: a, b | [] -> failwith "lload: count"
+let rec parse_lxops toks = match toks with
+  | [] -> []
+  | "lload" :: tg :: n :: r -> let es, r' = take (int_of_string n) r in LF (tg = "b", LLoad (top_ents es)) :: parse_lxops r'
+  | "lagain" :: tg :: r -> LF (tg = "b", LAgain) :: parse_lxops r
+  | "lopen" :: tg :: m :: r -> LF (tg = "b", (if m = "N" then LOpenNull else LOpenMissing)) :: parse_lxops r
+  | "lreset" :: tg :: r -> LF (tg = "b", LReset) :: parse_lxops r
+  | _ ->
+    (* one operation of the common language: find its length by parsing *)
+    let rec try_n n = if n > List.length toks then failwith ("bad op " ^ List.hd toks) else
+      let hd, tl = take n toks in
+      (match (try Some (parse_xops hd) with _ -> None) with
+       | Some [p] -> LX p :: parse_lxops tl
+       | _ -> try_n (n + 1)) in
+    try_n 2
 
 let show_cret r = match r with
   | CrErr e -> "E" ^ string_of_int (int_of_z e) | CrMe -> "me" | CrCptr -> "cptr" | CrObj -> "obj" | CrMeta -> "meta"
@@ -156,22 +212,74 @@ let show_bound ax wl =
   ^ String.concat "" (List.map (fun (n, w) -> Printf.sprintf "w(%s;%d)" (show_oname n) (int_of_z w.wl_cyc)) wl)
 let show_ghead h = match h with
   | GhK -> "K" | GhR -> "R" | GhKn n -> "K" ^ string_of_int (int_of_z n) | GhE e -> "E" ^ string_of_int (int_of_z e)
-  | GhT fl -> "T1:" ^ String.concat "," (List.map (fun f -> string_of_int (int_of_z f)) fl)
+  | GhT (fl, u0, lims) ->
+    "T1:" ^ String.concat "," (List.map (fun f -> string_of_int (int_of_z f)) fl)
+    ^ ";d3;u0" ^ (if u0 then "1" else "0") ^ ";f0"
+    ^ (match lims with
+       | None -> ";~;~;~"
+       | Some l -> String.concat "" (List.map (fun (lo, hi) -> ";" ^ hex_of_n 16 lo ^ "," ^ hex_of_n 16 hi) l))
+    ^ ";~"
+let obj_letter o = match o with OAxis _ -> "a" | OWorld _ -> "w" | OLine _ -> "l" | OText _ -> "t" | OGraph _ -> "g"
+let show_vname n = match n with None -> "~" | Some [] -> "-" | Some b -> hexs b
+let show_level l = String.concat "" (List.map (fun (n, o) -> "i(" ^ show_vname n ^ ";" ^ obj_letter o ^ ";" ^ show_dump (obj_props o) ^ ")") l)
+let show_bound_full ax wl =
+  String.concat "" (List.map (fun (n, o) -> "a(" ^ show_vname n ^ ";" ^ show_dump (obj_props o) ^ ")") ax)
+  ^ String.concat "" (List.map (fun (n, o) -> "w(" ^ show_vname n ^ ";" ^ show_dump (obj_props o) ^ ")") wl)
 let show_xres r = match r with
   | XRtok t -> show_rtok t
   | XBool b -> if b then "B1" else "B0"
   | XConvR (r, p) -> "V" ^ show_cret r ^ show_cpay p
   | XGraphR (h, ax, wl) -> show_ghead h ^ ":" ^ show_bound ax wl
+  | XViewR (items, ax, wl) ->
+    "W[" ^ show_level items ^ "]" ^ show_bound_full (List.map (fun (n, a) -> (n, OAxis a)) ax) (List.map (fun (n, w) -> (n, OWorld w)) wl)
+  | XCycR None -> "C~"
+  | XCycR (Some n) -> "C" ^ string_of_int (int_of_z n)
+  | XTotR e -> "G:" ^ show_ent e
+  | XPinfoR me -> if me then "Pme" else "Pc"
   | XUnsup -> "?"
 let show_xout ((t, a), b) = show_xres t ^ "|" ^ show_dump a ^ "|" ^ show_dump b
 (* specification: convert() and the graph's item handling are the mechanism's own results (taken from the model),
    the bool of the direct setters is left to the projection *)
-let show_xsout ((t, a), b) ((mt, _), _) =
-  (match t with
+let show_xshead t mt = match t with
    | XsTok st -> show_stok st
    | XsBool -> "B"
    | XsOpen -> show_xres mt
-   | XsUnsup -> "?") ^ "|" ^ show_sdump a ^ "|" ^ show_sdump b
+   | XsTot changed ->
+     (* whole-object query: a change of a listed property must be reported; members that are no property are the
+        mechanism's (taken from the model) *)
+     (match mt with
+      | XTotR e -> "G:" ^ cstring e.pe_name ^ "=?0" ^ (if changed || int_of_z e.pe_ret > 0 then "*" else "")
+      | _ -> "?")
+   | XsUnsup -> "?"
+let show_xsout ((t, a), b) ((mt, _), _) = show_xshead t mt ^ "|" ^ show_sdump a ^ "|" ^ show_sdump b
+
+(* ---- class layout with items ---- *)
+let show_graphs f gs = String.concat "" (List.map (fun ((n, o), i) ->
+  "g(" ^ show_vname n ^ ";" ^ (match i with Some k -> string_of_int (int_of_nat k) | None -> "new") ^ ")") gs)
+let show_scale (x, y) = hex_of_n 8 x ^ ";" ^ hex_of_n 8 y
+let show_tops letter dump tops =
+  String.concat "" (List.map (fun t ->
+    "i(" ^ show_vname t.tn_name ^ ";" ^ letter t.tn_obj ^ ";" ^ dump t.tn_obj
+    ^ (if letter t.tn_obj = "g" then
+         ";[" ^ String.concat "" (List.map (fun (n, o) -> "i(" ^ show_vname n ^ ";" ^ letter o ^ ";" ^ dump o ^ ")") t.tn_items) ^ "]"
+         ^ String.concat "" (List.map (fun (n, o) -> "a(" ^ show_vname n ^ ";" ^ dump o ^ ")") t.tn_axes)
+         ^ String.concat "" (List.map (fun (n, o) -> "w(" ^ show_vname n ^ ";" ^ dump o ^ ")") t.tn_worlds)
+       else "") ^ ")") tops)
+let m_dump o = show_dump (obj_props o)
+let s_letter (k, _) = match k with KAxis -> "a" | KWorld -> "w" | KLine -> "l" | KText -> "t" | KGraph -> "g"
+let s_dump (k, a) = show_sdump (sdump k a)
+let show_lres r = match r with
+  | LBool b -> if b then "B1" else "B0"
+  | LLoaded (b, v) -> "L" ^ (if b then "1" else "0") ^ ":" ^ show_tops obj_letter m_dump v.lv_tops ^ "/" ^ show_graphs () v.lv_graphs
+                      ^ "/" ^ show_scale v.lv_scale
+let show_llout ((t, a), b) = (match t with LXR r -> show_xres r | LFR r -> show_lres r) ^ "|" ^ show_dump a ^ "|" ^ show_dump b
+let show_slout ((t, a), b) ((mt, _), _) =
+  (match t, mt with
+   | SLXR r, LXR mr -> show_xshead r mr
+   | SLFR SLBool, _ -> "B"
+   | SLFR (SLLoaded (b, v)), _ -> "L" ^ (if b then "1" else "0") ^ ":" ^ show_tops s_letter s_dump v.slv_tops ^ "/" ^ show_graphs () v.slv_graphs
+                                  ^ "/" ^ show_scale v.slv_scale
+   | _, _ -> "?") ^ "|" ^ show_sdump a ^ "|" ^ show_sdump b
 let abs_of o = List.map (fun e -> (e.pe_name, e.pe_val)) (obj_listed o)
 
 let () =
@@ -184,6 +292,17 @@ let () =
       Printf.printf "M %s %s\n" id (if r < 0 then "E" ^ string_of_int (-r) else "M" ^ string_of_int r);
       let sr = (match parse_name m with None -> None | Some mb -> spec_match mb ml nb) in
       Printf.printf "S %s %s\n" id (match sr with None -> "R" | Some i -> "M" ^ string_of_int (int_of_nat i))
+    | id :: impl :: "lat" :: cur :: w :: st :: sy :: sz :: _ ->
+      let zi x = z_of_int (int_of_string x) in
+      let c = (match List.map int_of_string (String.split_on_char ',' cur) with [a; b; c; d] -> (a, b, c, d) | _ -> failwith "lat") in
+      let (w0, s0, y0, z0) = c in
+      let a0 = { la_style = z_of_int s0; la_width = z_of_int w0; la_symbol = z_of_int y0; la_size = z_of_int z0 } in
+      let show a = Printf.sprintf "%d,%d,%d,%d" (int_of_z a.la_width) (int_of_z a.la_style) (int_of_z a.la_symbol) (int_of_z a.la_size) in
+      let r, a1 = lattr_set4 a0 (zi w) (zi st) (zi sy) (zi sz) in
+      Printf.printf "M %s %s|%s E1\n" id (match r with SOk -> "K0" | SFail e -> "E" ^ string_of_int (int_of_z e)) (show a1);
+      (match spec_lattr4 (zi w) (zi st) (zi sy) (zi sz) with
+       | Some (((a, b), c), d) -> Printf.printf "S %s K0|%d,%d,%d,%d R\n" id (int_of_z a) (int_of_z b) (int_of_z c) (int_of_z d)
+       | None -> Printf.printf "S %s R|%s R\n" id (show a0))
     | id :: impl :: "col" :: txt :: _ ->
       let t = parse_name txt in
       let toks dec = (match dec with
@@ -209,13 +328,13 @@ let () =
       (* mpt++ objects: constructor argument behind ':', additional operations, class layout *)
       let kname, karg = (match String.split_on_char ':' kind with
         | [k; a] -> k, Some (z_of_int (int_of_string a)) | _ -> kind, None) in
-      let xops = parse_xops ops in
       if kname = "layout" then begin
-        Printf.printf "M %s %s Z\n" id (String.concat " " (List.map show_xout (lrun (def_layout, def_layout) xops)));
-        let m = lrun (def_layout, def_layout) xops in
-        Printf.printf "S %s %s Z\n" id (String.concat " "
-          (List.map2 show_xsout (lsrun (layout_defaults, layout_defaults) xops) m))
+        let lops = parse_lxops ops in
+        let m = llrun (ls_init, ls_init) lops in
+        Printf.printf "M %s %s Z\n" id (String.concat " " (List.map show_llout m));
+        Printf.printf "S %s %s Z\n" id (String.concat " " (List.map2 show_slout (slrun (sl_init, sl_init) lops) m))
       end else begin
+      let xops = parse_xops ops in
         let kn = n_of_int (kind_index kname) in
         let o = cxx_construct kn karg in
         let st = { xa = o; xb = o; xga = gx_empty; xgb = gx_empty } in
@@ -225,6 +344,17 @@ let () =
         let d0 = abs_of o in
         Printf.printf "S %s %s Z\n" id (String.concat " " (List.map2 show_xsout (xsrun sk (d0, d0) xops) m))
       end
+    | id :: "c" :: kind :: ops when List.mem "tot" ops || List.mem "pinfo" ops ->
+      (* the C API with the whole-object query / the query without record: same operations, objects from the C initialisers *)
+      let kn = n_of_int (kind_index kind) in
+      let o = default_of kn in
+      let xops = parse_xops_i "c" ops in
+      let st = { xa = o; xb = o; xga = gx_empty; xgb = gx_empty } in
+      let m = xrun st xops in
+      Printf.printf "M %s %s Z\n" id (String.concat " " (List.map show_xout m));
+      let sk = kind_no kn in
+      let d0 = abs_of o in
+      Printf.printf "S %s %s Z\n" id (String.concat " " (List.map2 show_xsout (xsrun sk (d0, d0) xops) m))
     | id :: impl :: kind :: ops ->
       let kn = n_of_int (kind_index kind) in
       (* mpt++ objects start from their constructors (proved to show the same defaults and to meet the invariant) *)
